@@ -68,7 +68,7 @@ def rule_t1(P, E, M):
         body = P.bodies[fn]
         pl = None
         for i in range(1, body["argc"] + 1):
-            if body["locals"][i] == BE_ID:
+            if body["locals"][i] in (BE_ID, "&" + BE_ID):
                 pl = i
         if pl is None:
             raise E5Error(f"{fn}: no WorkId parameter")
